@@ -100,6 +100,8 @@ class Net:
         self.dead = set()       # crashed parties
         self.cut = {}           # src -> remaining byte budget of a crashing party (over all its links)
         self.events = []        # ('write'|'deliver'|'close', ...)
+        self.loss_mode = None   # None: survivors are never told | 'none': connection_lost(None) | 'exc': connection_lost(exc)
+        self.loss_notified = set()
 
     def on_write(self, src, dst, data):
         if src in self.dead:
@@ -156,6 +158,24 @@ class Net:
         proto.data_received(data)
         return len(data)
 
+    def process_deaths(self):
+        """Once a dead party's outgoing queues have drained, tell the survivors (if loss_mode is set)."""
+        n = 0
+        if self.loss_mode is None:
+            return 0
+        for d in list(self.dead):
+            if d in self.loss_notified or any(q for (s_, _), q in self.queues.items() if s_ == d):
+                continue
+            self.loss_notified.add(d)
+            for (a, b) in [k for k in self.protos if k[1] == d and k[0] not in self.dead]:
+                proto = self.protos.get((a, b))
+                try:
+                    proto.connection_lost(None if self.loss_mode == 'none' else ConnectionResetError('peer died'))
+                except Exception as exc:  # noqa
+                    self.events.append(('connection_lost_exc', a, b, repr(exc)))
+                n += 1
+        return n
+
     def process_closes(self):
         """A closed link delivers connection_lost(None) to both ends once its queue has drained."""
         n = 0
@@ -188,6 +208,24 @@ class Fifo:
             n += net.deliver(link) or 0
             if net.order and net.order[0] == link and not net.queues[link]:
                 net.order.popleft()
+        return n
+
+
+class Coalesce:
+    """Like TCP under load: everything queued on a link is delivered in ONE data_received call
+    (several frames, possibly followed by a partial one, arrive together)."""
+
+    def deliver(self, net):
+        n = 0
+        for link in sorted(l for l, q in net.queues.items() if q):
+            q = net.queues[link]
+            if len(q) > 1:
+                data = b''.join(q)
+                q.clear()
+                q.append(data)
+                net.order = collections.deque(l for l in net.order if l != link)
+                net.order.append(link)
+            n += net.deliver(link)
         return n
 
 
@@ -369,6 +407,7 @@ class Sim:
                 self.net.events.append(('loop_exc', repr(exc)))
             n = policy.deliver(self.net)
             n += self.net.process_closes()
+            n += self.net.process_deaths()
             if all(f.done() for f in futs) and not self.net.pending():
                 break
             if n or self.net.writes != w0:
